@@ -100,6 +100,42 @@ type env struct {
 	run  *emit.Run
 	pubs []cryptotypes.PubKey // by rank
 	prio palomamempool.TxPriority[int64]
+	// class ranking oracle: lowest / highest real priority seen per class (0 consensus .. 3 valset, 4 = everything else below MaxInt64-3)
+	clsMin, clsMax [5]int64
+	clsSeen        [5]bool
+}
+
+var classRank = map[string]int{"consensus": 0, "scheduler": 1, "evm": 2, "valset": 3}
+
+// single-message consensus > scheduler > evm > valset > all others (whose CheckTx priority is below MaxInt64-3)
+func (e *env) classOracle(kinds []int, ante, prio int64, entry any) {
+	c := 4
+	if len(kinds) == 1 {
+		if r, ok := classRank[msgKinds[kinds[0]].name]; ok {
+			c = r
+		}
+	}
+	if c == 4 && ante >= math.MaxInt64-3 {
+		return
+	}
+	if !e.clsSeen[c] || prio < e.clsMin[c] {
+		e.clsMin[c] = prio
+	}
+	if !e.clsSeen[c] || prio > e.clsMax[c] {
+		e.clsMax[c] = prio
+	}
+	e.clsSeen[c] = true
+	for i := 0; i < 5; i++ {
+		for j := i + 1; j < 5; j++ {
+			if e.clsSeen[i] && e.clsSeen[j] && e.clsMin[i] <= e.clsMax[j] {
+				names := []string{"consensus", "scheduler", "evm", "valset", "other"}
+				e.run.Violate("C19:class-order", fmt.Sprintf("a single-message %s transaction got priority %d, not above a %s transaction's %d",
+					names[i], e.clsMin[i], names[j], e.clsMax[j]), map[string]any{"insert": entry})
+				e.clsSeen = [5]bool{}
+				return
+			}
+		}
+	}
 }
 
 func newEnv(run *emit.Run) *env {
@@ -163,6 +199,7 @@ func (h *hist) insert(e *env, s int, n uint64, kinds []int, ante int64) {
 		cls = msgKinds[kinds[0]].name
 	}
 	e.run.Count("insert-class", cls)
+	e.classOracle(kinds, ante, prio, map[string]any{"kinds": kinds, "ante": ante, "priority": prio})
 	h.after(e, fmt.Sprintf("C19.CInsert %d %s %s %s %s", s, emit.ZU(n), emit.List(urls), emit.ZI(ante), emit.ZI(prio)),
 		map[string]any{"op": "insert", "sender": s, "nonce": n, "kinds": kinds, "ante": ante, "priority": prio})
 }
